@@ -28,6 +28,8 @@ type C09Case struct {
 	// Relogon (acceptor): after the warm-up the peer logs out and at once logs on
 	// again on the same connection; the pattern then runs in the second logon.
 	Relogon bool `json:"relogon,omitempty"`
+	// AfterLogout: the peer's Logout has been answered, the connection stays open
+	AfterLogout bool `json:"after_logout,omitempty"`
 }
 
 func tolT(n int) time.Duration {
@@ -86,8 +88,18 @@ func genC09(t *rapid.T) *C09Case {
 		add(rig.Step{Op: "in", In: g.logout()})
 		add(rig.Step{Op: "in", In: g.goodLogon(n)})
 	}
+	if !c.Relogon && rapid.IntRange(0, 5).Draw(t, "afterLogout") == 0 {
+		// the peer logs out (the Logout is answered) but keeps the connection open: what the
+		// property says about a silent peer holds on for as long as the connection does
+		c.AfterLogout = true
+		adv(rapid.Int64Range(1, N).Draw(t, "logoutDt"))
+		add(rig.Step{Op: "in", In: g.logout()})
+	}
 	eps := rapid.SampledFrom([]int64{1, int64(time.Millisecond), T / 100}).Draw(t, "eps")
 	c.Pattern = rapid.SampledFrom([]string{"total-silence", "ends-just-before-T", "ends-just-after-T", "answer-in-second-period", "steady"}).Draw(t, "pattern")
+	if c.AfterLogout {
+		c.Pattern = "total-silence"
+	}
 	switch c.Pattern {
 	case "total-silence":
 		adv(3*T + T/2)
@@ -302,6 +314,9 @@ func checkC09(c *C09Case, rec *evid.Rec) (vs []pbt.Violation) {
 	}
 	if c.Relogon {
 		rec.Hist("second-logon-on-the-connection")
+	}
+	if c.AfterLogout {
+		rec.Hist("silence-after-a-logout-exchange")
 	}
 	if c.RefuseProbes && nProbes > 0 {
 		rec.Hist("probe-refused-by-application-handler")
